@@ -21,12 +21,17 @@ DECIDED = [
     "R-C15-ELAPSED: a deferred_until that has already passed is not returned as due time, so an immediately deliverable message is queued like any other (C06's first-run rule, reused)",
     "R-C15-DISCIPLINE (insert only, hand-out): __put_in_queue removes nothing; the name handed out by the fetch is the element the oldest-first scan is looking at",
     "R-C15-DISCIPLINE (round 5): RabbitMQ on_new_message reaches queue.put without a suspension point (each delivery callback is its own task: a suspended earlier delivery is overtaken)",
+    "R-C15-DISCIPLINE (round 6): a cancelled RabbitMQ wait cancels its getter task (a leaked getter swallows the next delivery) and re-raises; an error while reading a claimed Redis message propagates",
+    "R-C15-AWAITED: in the files this property is anchored in, no bare statement calls a coroutine function (the operation would never run)",
 ]
 NOT_DECIDED = ["order across histories with concurrent producers/consumers", "RabbitMQ (server-side ordering)", "fairness between priorities (randomised by design)"]
 ASSUMPTIONS = ["Redis LRANGE returns elements left to right, LPUSH/RPUSH add at the left/right end, LREM with negative count scans from the tail", "asyncio.Queue is FIFO for put_nowait/get_nowait"]
 
 
 def run(ctx: Ctx) -> None:
+    from .shared import every_operation_awaited
+
+    every_operation_awaited(ctx, "R-C15-AWAITED")  # in the files this property is anchored in, no asynchronous operation is created and dropped
     discipline(ctx)
     inmem(ctx)
     from .C06 import first_run
@@ -34,6 +39,10 @@ def run(ctx: Ctx) -> None:
     from .brokers import rabbit_delivery_order
 
     rabbit_delivery_order(ctx, "R-C15-DISCIPLINE")
+    from .brokers import rabbit_consume_releases_get, redis_claimed_read_propagates
+
+    rabbit_consume_releases_get(ctx, "R-C15-DISCIPLINE")
+    redis_claimed_read_propagates(ctx, "R-C15-DISCIPLINE")
     from .C05 import poll
 
     poll(ctx, "R-C15-PROMOTE")  # due delayed messages are promoted before every fetch: a busy waiting queue cannot starve them
